@@ -74,6 +74,7 @@ def run_variant(v: Variant, src_pkg: Path) -> dict:
         env = dict(os.environ)
         env["VERIF_REPO"] = str(tmp)
         env["VERIF_EVIDENCE_DIR"] = str(tmp / "evidence")
+        env.pop("VERIF_TIER", None)
         p = subprocess.run(
             [sys.executable, "-m", "sa", "check", v.prop, "--tier", "quick"],
             cwd=str(VERIF), env=env, capture_output=True, text=True, timeout=300,
@@ -93,11 +94,68 @@ def run_variant(v: Variant, src_pkg: Path) -> dict:
         shutil.rmtree(tmp, ignore_errors=True)
 
 
-def selftest(props: list[str] | None = None, jobs: int = 16, only: str | None = None) -> tuple[list[dict], int]:
+@dataclass
+class Seeded:
+    sid: str  # directory name under /verif/seeded
+    prop: str
+    patch: Path
+    fired: list[str]  # checks recorded as firing when the change was confirmed
+
+
+def load_seeded() -> list[Seeded]:
+    out: list[Seeded] = []
+    d = VERIF / "seeded"
+    if not d.is_dir():
+        return out
+    for m in sorted(d.glob("*/meta.json")):
+        meta = json.loads(m.read_text())
+        out.append(Seeded(m.parent.name, meta["property"], m.parent / "patch.diff", list(meta.get("checks_that_fire", []))))
+    return out
+
+
+def run_seeded(sd: Seeded, prop: str, src_pkg: Path) -> dict:
+    """Apply an independently written breaking change (kept under /verif/seeded) to a scratch copy
+    and require the check of `prop` to report it."""
+    tmp = Path(tempfile.mkdtemp(prefix="sa-seed-"))
+    try:
+        shutil.copytree(src_pkg, tmp / PKG, ignore=shutil.ignore_patterns("__pycache__", "*.so", "*.pyc"))
+        p = subprocess.run(["git", "apply", "--whitespace=nowarn", str(sd.patch)], cwd=str(tmp), capture_output=True, text=True)
+        if p.returncode != 0:
+            return {"vid": f"seeded:{sd.sid}", "prop": prop, "status": "skipped", "why": "patch no longer applies"}
+        env = dict(os.environ)
+        env["VERIF_REPO"] = str(tmp)
+        env["VERIF_EVIDENCE_DIR"] = str(tmp / "evidence")
+        env.pop("VERIF_TIER", None)
+        q = subprocess.run([sys.executable, "-m", "sa", "check", prop, "--tier", "quick"], cwd=str(VERIF), env=env, capture_output=True, text=True, timeout=300)
+        out = q.stdout + q.stderr
+        fired = q.returncode == 1 and "VIOLATION" in out
+        return {
+            "vid": f"seeded:{sd.sid}", "prop": prop, "expect": "fire", "rc": q.returncode, "status": "ok" if fired else "MISSED",
+            "report": [ln for ln in out.splitlines() if "VIOLATION" in ln or "ANALYSIS-ERROR" in ln][:3],
+        }
+    finally:
+        shutil.rmtree(tmp, ignore_errors=True)
+
+
+def selftest(props: list[str] | None = None, jobs: int = 16, only: str | None = None, seeded: bool = True) -> tuple[list[dict], int]:
     vs = [v for v in load_variants() if (not props or v.prop in props) and (not only or only in v.vid)]
     src_pkg = repo_root() / PKG
+    jobs_: list = [("v", v) for v in vs]
+    if seeded:
+        for sd in load_seeded():
+            for p in sd.fired:
+                if (not props or p in props) and (not only or only in sd.sid):
+                    jobs_.append(("s", (sd, p)))
+
+    def one(j):
+        kind, x = j
+        try:
+            return run_variant(x, src_pkg) if kind == "v" else run_seeded(x[0], x[1], src_pkg)
+        except subprocess.TimeoutExpired:
+            return {"vid": getattr(x, "vid", str(x)), "status": "broken-variant", "why": "timeout"}
+
     with ThreadPoolExecutor(max_workers=jobs) as ex:
-        results = list(ex.map(lambda v: run_variant(v, src_pkg), vs))
+        results = list(ex.map(one, jobs_))
     bad = sum(1 for r in results if r["status"] in ("MISSED", "FALSE-ALARM", "broken-variant"))
     return results, bad
 
